@@ -97,12 +97,14 @@ Inductive leaf :=
 | LDense (shape : list Z) (buf : buffer)               (* DenseArray._values                 *)
 | LSparse (ty : string) (shape : list Z) (bufs : list buffer)
                                                        (* type name, shape, property arrays  *)
-| LTdda (name : string) (doms : list Z) (tidx : Z)     (* TimeDependentDenseArray            *)
-| LVar (name : string) (dom : Z) (tidx iidx : Z)       (* Variable; private indices, -1=now  *)
-| LMdVar (name : string) (doms : list Z) (tidx iidx : Z)
+(* [kind]: the kind of domain (0 subdomains, 1 interfaces, 2 boundary grids, 3 none): the
+   three kinds are numbered by separate counters, so ids identify a domain only with it *)
+| LTdda (name : string) (kind : Z) (doms : list Z) (tidx : Z)   (* TimeDependentDenseArray   *)
+| LVar (name : string) (kind : Z) (dom : Z) (tidx iidx : Z)     (* Variable; private indices *)
+| LMdVar (name : string) (kind : Z) (doms : list Z) (tidx iidx : Z)
 | LProj (p : proj)
 | LProjList (ps : list proj)
-| LMerged (name : string) (doms : list Z) (mkey pkey : string) (ikey : option string)
+| LMerged (name : string) (kind : Z) (doms : list Z) (mkey pkey : string) (ikey : option string)
                                      (* ad_utils.MergedOperator: class name of the discretization,
                                         domain ids, discretization_matrix_key, physics_key,
                                         inner_physics_key (coupling terms) *)
@@ -121,12 +123,12 @@ Section Key.
   | TDense (shape : list Z) (h : digest)               (* "(dense_array, shape=, hash=)"    *)
   | TSparse (ty : string) (shape : list Z) (hs : list digest)
                                                        (* (sparse_array, hash=TYPE_SHAPE_HASHES) *)
-  | TTdda (name : string) (doms : list Z) (tidx : Z)
-  | TVar (name : string) (dom : Z) (tidx iidx : Z)
-  | TMdVar (name : string) (doms : list Z) (tidx iidx : Z)
+  | TTdda (name : string) (kind : Z) (doms : list Z) (tidx : Z)
+  | TVar (name : string) (kind : Z) (dom : Z) (tidx iidx : Z)
+  | TMdVar (name : string) (kind : Z) (doms : list Z) (tidx iidx : Z)
   | TProj (p : projtok)                                (* "(prolongation, ...)"             *)
   | TProjList (ps : list projtok)                      (* "(slicing_operator_list, ...)"    *)
-  | TMerged (name : string) (doms : list Z) (mkey pkey : string) (ikey : option string)
+  | TMerged (name : string) (kind : Z) (doms : list Z) (mkey pkey : string) (ikey : option string)
                                                        (* "(Merged_operator, name=, ...)"   *)
   | TDiv (dim : Z) (doms : list Z).                    (* "(divergence, dim=, subdomains=)" *)
 
@@ -140,12 +142,12 @@ Section Key.
     | LScalar b => TScalar b
     | LDense sh buf => TDense sh (sha buf)
     | LSparse ty sh bufs => TSparse ty sh (map sha bufs)
-    | LTdda n ds t => TTdda n ds t
-    | LVar n d t i => TVar n d t i
-    | LMdVar n ds t i => TMdVar n ds t i
+    | LTdda n k ds t => TTdda n k ds t
+    | LVar n k d t i => TVar n k d t i
+    | LMdVar n k ds t i => TMdVar n k ds t i
     | LProj p => TProj (proj_key p)
     | LProjList ps => TProjList (map proj_key ps)
-    | LMerged n ds mk pk ik => TMerged n ds mk pk ik   (* ", inner_physics_key=" only if not None *)
+    | LMerged n k ds mk pk ik => TMerged n k ds mk pk ik   (* ", inner_physics_key=" only if not None *)
     | LDiv d ds => TDiv d ds
     end.
 
@@ -157,12 +159,12 @@ Arguments TFunc {digest} name nargs.
 Arguments TScalar {digest} bits.
 Arguments TDense {digest} shape h.
 Arguments TSparse {digest} ty shape hs.
-Arguments TTdda {digest} name doms tidx.
-Arguments TVar {digest} name dom tidx iidx.
-Arguments TMdVar {digest} name doms tidx iidx.
+Arguments TTdda {digest} name kind doms tidx.
+Arguments TVar {digest} name kind dom tidx iidx.
+Arguments TMdVar {digest} name kind doms tidx iidx.
 Arguments TProj {digest} p.
 Arguments TProjList {digest} ps.
-Arguments TMerged {digest} name doms mkey pkey ikey.
+Arguments TMerged {digest} name kind doms mkey pkey ikey.
 Arguments TDiv {digest} dim doms.
 
 (* ---------------------------------------------------------------------------------- *)
